@@ -67,6 +67,7 @@ type TierSpec struct {
 	Witnesses  int            `json:"witnesses"`
 	MaxSteps   int            `json:"max_steps"`
 	CrossCheck bool           `json:"cross_check"` // repeat every final assertion query on z3 4.8.12
+	PreemptIn  []string       `json:"preempt_in"`  // restrict pre-emption points to functions whose name contains one of these
 	Sched      string         `json:"sched"`       // "" = every order at blocking points; "det" = one round-robin order
 }
 
@@ -782,6 +783,7 @@ func newEngine(prog *ssa.Program, run *RunSpec, ts *TierSpec, knownIDs map[strin
 		e.crossCheck = crossCheckFinal
 	}
 	e.maxPreempts = ts.Preempts
+	e.preemptIn = ts.PreemptIn
 	e.detSched = ts.Sched == "det"
 	e.memYield = ts.MemYield
 	e.fnInfos = map[*ssa.Function]*fnInfo{}
